@@ -214,15 +214,21 @@ def fill_ld_slice_padding(
     length_field_bits = intlog2(slice_data_bits)
     slice_data_bits -= length_field_bits
 
-    # Force the specified component to the full length
+    # Force the specified component to the full length (NB: in a one-byte slice
+    # the slice_y_length field is zero bits wide so the luma component cannot
+    # be given any space)
     if component == "Y":
-        ld_slice["slice_y_length"] = slice_data_bits
+        ld_slice["slice_y_length"] = min(
+            slice_data_bits, (1 << length_field_bits) - 1
+        )
+        component_data_bits = ld_slice["slice_y_length"]
     else:
         ld_slice["slice_y_length"] = 0
+        component_data_bits = slice_data_bits
 
     # Work out the size of the padding bits
     bits_used_by_zeros = len(ld_slice["{}_transform".format(component.lower())])
-    padding_bits = slice_data_bits - bits_used_by_zeros
+    padding_bits = component_data_bits - bits_used_by_zeros
 
     data_start_offset_bits = 7 + length_field_bits
 
